@@ -47,6 +47,9 @@ def make_table(spec):
             X[:, j] = [np.exp(Z[:, j]), Z[:, j] ** 3, ndtr(Z[:, j]), Z[:, j]][int(rng.integers(4))]
     elif pat == 'near_dup' and d >= 3:
         X[:, -1] = X[:, 0] + 1e-3 * rng.standard_normal(n)
+    elif pat == 'near_monotone':
+        # two almost perfectly monotone columns (tau about 0.97-0.99): h-functions reach 0 and 1 in floating point
+        X[:, -1] = X[:, 0] + float(rng.uniform(0.01, 0.04)) * rng.standard_normal(n)
     perm = spec.get('perm') or list(range(d))
     X = X[:, perm]
     return pd.DataFrame(X, columns=['x%d' % i for i in range(d)])
@@ -58,7 +61,7 @@ def permutations(d, rng, cap=24):
     return [list(rng.permutation(d)) for _ in range(cap)]
 
 
-def fit(ctx, vine_type, df, truncated, sentinel='pos', random_state=None):
+def fit(ctx, vine_type, df, truncated, sentinel='pos', random_state=None, past=None):
     """Fit a VineCopula with np.empty (as seen by tree.py / vine.py) returning sentinel-filled buffers.
     Returns (model, poison_counter) or (exception, None)."""
     import copulas.multivariate.tree as tree_mod
@@ -67,6 +70,15 @@ def fit(ctx, vine_type, df, truncated, sentinel='pos', random_state=None):
     kw = {} if random_state is None else {'random_state': random_state}
     model = VineCopula(vine_type, **kw)
     with interpose.poison_empty(SENTINELS[sentinel], tree_mod, vine_mod) as p:
+        if past is not None:
+            # the instance has a past: fitted on another table (same columns) and used
+            try:
+                model.fit(past.copy(), truncated=truncated)
+                model.sample(1)
+                model.get_likelihood(np.full((1, past.shape[1]), 0.4))
+                model.to_dict()
+            except Exception:  # noqa: BLE001 - a refused earlier fit is part of the history
+                pass
         ok, exc = ctx.call(model.fit, df.copy(), truncated=truncated)
     if not ok:
         return exc, None
@@ -200,3 +212,9 @@ def check_to_dict(ctx, model, where, prop='C16'):
                         and (ed['theta'] == e.theta or (ed['theta'] != ed['theta'] and e.theta != e.theta))):
                     good = False
     ctx.check(good, 'vine.to_dict', prop + ':to_dict-disagrees-with-model', where)
+
+
+def past_table(df, rng):
+    """Another table with the same columns: rows of each column shuffled independently, rescaled."""
+    import pandas as pd
+    return pd.DataFrame({c: rng.permutation(df[c].to_numpy()) * 3.0 + 1.0 for c in df.columns}, columns=df.columns)
